@@ -315,6 +315,58 @@ func runC12(c *Ctx, r *Report) {
 			return true
 		})
 	}
+	// third-party functions called from the decode closure that turn an argument into a panic
+	{
+		type site struct {
+			fn   *Fn
+			call *ast.CallExpr
+		}
+		sites := map[extFuncKey][]site{}
+		for _, fn := range fns {
+			fn := fn
+			walkNoLit(fn.Body, func(n ast.Node) bool {
+				call, ok := n.(*ast.CallExpr)
+				if !ok {
+					return true
+				}
+				cf := p.Callee(fn, call)
+				if cf == nil || cf.Pkg() == nil || p.firstParty(cf.Pkg()) || !strings.Contains(cf.Pkg().Path(), ".") {
+					return true
+				}
+				if sig := cf.Type().(*types.Signature); sig.Params().Len() == 0 && sig.Recv() == nil {
+					return true // nothing of the block reaches it
+				}
+				k := extKeyOf(cf)
+				sites[k] = append(sites[k], site{fn, call})
+				return true
+			})
+		}
+		var keys []extFuncKey
+		for k := range sites {
+			keys = append(keys, k)
+		}
+		sort.Slice(keys, func(i, j int) bool {
+			return keys[i].pkg+keys[i].recv+keys[i].name < keys[j].pkg+keys[j].recv+keys[j].name
+		})
+		res := p.explicitPanics(keys)
+		for _, k := range keys {
+			for i, st := range sites[k] {
+				why := res[k]
+				if k.pkg == "golang.org/x/crypto/nacl/secretbox" && k.name == "Open" && len(st.call.Args) == 4 && isNilIdent(st.call.Args[0]) {
+					why = "" // read: its only panic is on an output buffer overlapping the box; with a nil output buffer there is none
+				}
+				r.Check(why == "" || why == "?", "R-C12.3", r.Key("R-C12.3", st.fn, "dependency-panic", fmt.Sprintf("%s.%s#%d", k.recv, k.name, i)), st.call.Pos(),
+					"the third-party function called here has no explicit panic in its body",
+					fmt.Sprintf("%s.%s.%s is called while decoding an untrusted block and %s: a value of the block it refuses takes the process down instead of being reported", k.pkg, k.recv, k.name, why))
+			}
+		}
+		r.Floor("R-C12.3", "third-party functions called from the decode closure examined for an explicit panic", len(keys), 4)
+		ctl := p.explicitPanics([]extFuncKey{{pkg: "github.com/ipfs/go-cid", name: "NewCidV0"}})
+		ck := extFuncKey{pkg: "github.com/ipfs/go-cid", name: "NewCidV0"}
+		r.Check(ctl[ck] != "" && ctl[ck] != "?", "R-C12.3", r.Key("R-C12.3", nil, "control", "cid.NewCidV0"), 0,
+			"control: the examination recognises go-cid's NewCidV0 as panicking on its argument",
+			"control failed: go-cid's NewCidV0 was not recognised as panicking ("+ctl[ck]+") — the examination of dependency sources is not working")
+	}
 	r.Floor("R-C12.3", "error-returning calls examined in the decode closure", nErr, 4)
 	_ = nAssert
 
